@@ -417,6 +417,48 @@ def constop_cases():
     return out
 
 
+def build_carg(d):
+    """a word-level primitive with ONE argument position tied to a constant (op in + - * < > = x c s & | ^ n; position pos;
+    value val): the shapes on which lowering / folding / code generation take their constant-operand shortcuts"""
+    b = pyrtl.working_block()
+    op, w, pos, val = d['op'], d['w'], d['pos'], d['val']
+    nargs = {'x': 3, 'c': 3, 's': 1}.get(op, 2)
+    args = []
+    for i in range(nargs):
+        wi = 1 if (op == 'x' and i == 0) else w
+        if i == pos:
+            args.append(pyrtl.Const(val & ((1 << wi) - 1), bitwidth=wi))
+        else:
+            args.append(pyrtl.Input(wi, 'a%d' % i))
+    if op == 's':
+        idx = tuple(range(w - 1, -1, -1))
+        t = pyrtl.WireVector(w, 't')
+        _net(b, 's', idx, args, [t])
+    else:
+        natural = {'+': w + 1, '-': w + 1, '*': 2 * w, '<': 1, '>': 1, '=': 1, 'x': w, 'c': 3 * w}.get(op, w)
+        t = pyrtl.WireVector(natural, 't')
+        _net(b, op, None, args, [t])
+    o = pyrtl.Output(len(t), 'o')
+    o <<= t
+    if not any(isinstance(a, pyrtl.Input) for a in args):
+        x = pyrtl.Input(1, 'x')
+        o2 = pyrtl.Output(1, 'o2')
+        o2 <<= x
+    return b
+
+
+def carg_cases(widths=(1, 3)):
+    out = []
+    for op in '+-*<>=xcs&|^n':
+        for w in widths:
+            nargs = {'x': 3, 'c': 3, 's': 1}.get(op, 2)
+            for pos in range(nargs):
+                m = 1 if (op == 'x' and pos == 0) else (1 << w) - 1
+                for val in sorted({0, 1, m}):
+                    out.append({'fam': 'CARG', 'op': op, 'w': w, 'pos': pos, 'val': val})
+    return out
+
+
 def build_dup(d):
     """duplicated sub-expressions with commuted / non-commuted operands"""
     op, w = d['op'], d['w']
@@ -595,4 +637,4 @@ def misc_cases():
     return out
 
 
-FAMILIES.update({'CONSTOP': build_constop, 'DUP': build_dup, 'MISC': build_misc})
+FAMILIES.update({'CONSTOP': build_constop, 'DUP': build_dup, 'MISC': build_misc, 'CARG': build_carg})
